@@ -310,6 +310,15 @@ func NumCPU() int {
 	return S.NumCPUv
 }
 
+// GOMAXPROCS: a query (n < 1) answers what NumCPU answers: on a host with that many processors, with
+// the environment variable unset, the two agree. Setting it has no effect in the controlled runtime.
+func GOMAXPROCS(n int) int {
+	if S == nil {
+		return runtime.GOMAXPROCS(n)
+	}
+	return S.NumCPUv
+}
+
 // rnd: by default a pure function of (thread, per-thread draw index); a harness may decide every draw.
 func rnd(n uint64) uint64 {
 	t := S.cur
